@@ -195,6 +195,11 @@ def cells_differ(ex, a, b, tid):
     """formula: two leaf cells differ (None if certainly equal)"""
     if a is b:
         return False
+    if isinstance(a, tuple) or isinstance(b, tuple):
+        if isinstance(a, tuple) and isinstance(b, tuple):
+            from .iohash import cell_equal
+            return b_not(cell_equal(a, b))
+        return True
     p = ex.prog
     if is_term(a) or is_term(b) or isinstance(a, (int, bool)):
         if isinstance(a, bool) or isinstance(b, bool) or (is_term(a) and z3.is_bool(a)):
